@@ -232,11 +232,11 @@ def _run_dense(desc):
     return sh
 
 
-def _sparse_case(sh, cI, cells, perm, collect=False):
+def _sparse_case(sh, cI, cells, perm, collect=False, offset=0.0):
     ii = np.array([c // 3 for c in cells], np.uint16)
     jj = np.array([c % 3 for c in cells], np.uint16)
-    v = (10.0 * (np.asarray(perm, np.float32) + 1)).astype(np.float32)
-    case = {"kind": "sparse", "cells": list(cells), "perm": list(perm)}
+    v = (10.0 * (np.asarray(perm, np.float32) + 1) - offset).astype(np.float32)
+    case = {"kind": "sparse", "cells": list(cells), "perm": list(perm), "offset": offset}
     want, n_want = sparse_oracle(ii, jj, v)
     labs = []
     for pl, pw in POIS:
@@ -266,6 +266,10 @@ def _run_sparse(desc):
     for cells in subsets:
         for perm in itertools.permutations(range(k)):
             c = _sparse_case(sh, cI, cells, perm)
+            if k <= 6:
+                # background-subtracted data: values below and exactly at zero (all negative; straddling zero with one pixel at 0.0)
+                _sparse_case(sh, cI, cells, perm, offset=10.0 * (k + 2))
+                _sparse_case(sh, cI, cells, perm, offset=10.0 * ((k + 1) // 2))
         sh.sample(c, limit=1)
     return sh
 
@@ -581,7 +585,7 @@ def replay(case):
         _dense_case(sh, cI, im, [case.get("nthreads", 1)], case)
         return (not sh.violations), {"violations": sh.violations}
     if case["kind"] == "sparse":
-        _sparse_case(sh, cI, case["cells"], case["perm"])
+        _sparse_case(sh, cI, case["cells"], case["perm"], offset=case.get("offset", 0.0))
         return (not sh.violations), {"violations": sh.violations}
     if case["kind"] == "serpentine":
         im, plen = serpentine(tuple(case["shape"]), case["reverse"])
